@@ -5,6 +5,7 @@ import (
 	"encoding/json"
 	"fmt"
 	"os"
+	"runtime"
 	"sort"
 
 	"github.com/rqlite/rqlite/v10/db/wal"
@@ -177,6 +178,9 @@ func (st *c05State) observe(e *walsim.Engine, seed uint64, faults []walsim.Fault
 	if c.Failed() {
 		return
 	}
+	// workers run with GOGC=off; the images handled here are large, so collect
+	// explicitly (keeps the heap, and with it page-fault time, small)
+	defer runtime.GC()
 	w, _ := os.ReadFile(e.WALPath)
 	if len(w) < 32 {
 		c.Probe("obs_empty_wal")
@@ -192,6 +196,7 @@ func (st *c05State) observe(e *walsim.Engine, seed uint64, faults []walsim.Fault
 	}
 	r := core.NewRand(seed)
 	fastOK := true
+	cut := false
 	var fdesc []string
 	for _, f := range faults {
 		var s string
@@ -199,8 +204,13 @@ func (st *c05State) observe(e *walsim.Engine, seed uint64, faults []walsim.Fault
 		if s != "none" {
 			c.Fault(f.K)
 			fdesc = append(fdesc, s)
-			if needsChecksum(f.K) {
+			// a cut followed by garbage replaces the rest of a frame's page by
+			// other bytes under an intact frame header: content damage
+			if needsChecksum(f.K) || (f.K == "garbage" && cut) {
 				fastOK = false
+			}
+			if f.K == "trunc" {
+				cut = true
 			}
 		}
 	}
